@@ -27,6 +27,7 @@ type vpConn struct {
 	stall     bool          // the server reads but never answers
 	delay     time.Duration // the server answers this much later
 	failWriteAfter int       // Write fails once this many requests have been accepted (0: never)
+	stallAfter     int       // answers this many requests, then stalls (0: never)
 	failWriteCall  int       // the n-th Write call (and every later one) fails (0: never)
 	writeCalls     int
 	closed    int
@@ -87,7 +88,7 @@ func (c *vpConn) Write(b []byte) (int, error) {
 			j++
 		}
 		path := string(req[4:j])
-		if !c.stall && (c.dieAfter == 0 || c.requests <= c.answer) {
+		if !c.stall && !(c.stallAfter > 0 && c.requests > c.stallAfter) && (c.dieAfter == 0 || c.requests <= c.answer) {
 			resp := []byte("HTTP/1.1 200 OK\r\nContent-Length: " + c07Digits(len(path)) + "\r\n\r\n" + path)
 			if c.delay > 0 {
 				d := c.delay
@@ -195,7 +196,8 @@ func vhC38Deadlines() {
 	// answers; stalls; answers after 150 ms; closes after the first request;
 	// takes the first write (one batch of requests) without answering and
 	// fails the next write
-	mode := vChoose("server", 5)
+	// …; answers its first two requests and then stalls
+	mode := vChoose("server", 6)
 	spaced := vBool("callsSpacedBy10ms")
 	var conns []*vpConn
 	pc := &PipelineClient{Addr: "a.co:80", MaxConns: 1, MaxPendingRequests: 1 + vChoose("maxPending", 2), MaxBatchDelay: time.Millisecond}
@@ -215,6 +217,8 @@ func vhC38Deadlines() {
 				c.stall = true
 				c.failWriteCall = 2
 			}
+		case 5:
+			c.stallAfter = 2 // answers two requests, then reads on without answering
 		}
 		conns = append(conns, c)
 		return c, nil
@@ -230,7 +234,7 @@ func vhC38Deadlines() {
 	for i := 0; i < K; i++ {
 		i := i
 		// calls without a deadline only against servers that answer (late) or close
-		withDeadline := mode == 1 || mode == 4 || vBool("withDeadline")
+		withDeadline := mode == 1 || mode == 4 || mode == 5 || vBool("withDeadline")
 		t0 := time.Now()
 		go func() {
 			var req Request
@@ -268,6 +272,42 @@ func vhC38Deadlines() {
 			}
 		}
 	}
+	// afterwards: one or two more deadline calls, one after the other (they
+	// reuse pooled work items of calls that have failed, timed out or succeeded)
+	followOnTime, followOwn, followAnswered := true, true, true
+	nf := vChoose("followUpCalls", 3)
+	for i := 0; i < nf; i++ {
+		var req Request
+		var resp Response
+		req.SetRequestURI("http://a.co/f" + c07Digits(i))
+		t0 := time.Now()
+		err := pc.DoTimeout(&req, &resp, T)
+		if time.Since(t0) > T+5*time.Millisecond {
+			followOnTime = false
+		}
+		if err == nil && string(resp.Body()) != "/f"+c07Digits(i) {
+			followOwn = false
+		}
+		// a server that answers at once now (it always did, or only its first
+		// connection was faulty) must be heard: no stale result of an earlier call
+		if mode == 0 && err != nil {
+			followAnswered = false
+		}
+		// a connection error (anything but nil / ErrTimeout) cannot come from a
+		// connection that is still open and has answered this very request
+		if err != nil && err != ErrTimeout {
+			for _, c := range conns {
+				healthy := c.closed == 0 && !c.srvClosed && !c.stall && c.failWriteCall == 0 && c.stallAfter == 0 && c.delay == 0
+				if healthy && vcContains(c.wrote, "/f"+c07Digits(i)+" ") {
+					followAnswered = false
+					vNote("follow-up error on a healthy connection: " + err.Error())
+				}
+			}
+		}
+	}
+	vAssert("later-deadline-calls-return-by-their-deadline", followOnTime)
+	vAssert("later-calls-carry-their-own-response", followOwn)
+	vAssert("later-calls-answered-on-a-healthy-connection-succeed", followAnswered)
 	vAssert("deadline-calls-return-by-their-deadline", onTime)
 	vAssert("successful-calls-carry-their-own-response", own)
 	vAssert("overflowed-calls-were-never-transmitted", quiet)
